@@ -145,15 +145,18 @@ PROPS = {
     },
     "C11": {
         "theorems": ["C11_reports_model", "C11_duration", "C11_horizon", "C11_calendar", "C11_assigned_has_requirement",
-                     "C11_unscheduled_no_assignment"],
+                     "C11_unscheduled_no_assignment", "C02_busy_span"],
         "profiles": [("core", 1.0)],
-        "relevant": lambda o: False,
-        "spec": None,
+        # "the reported interval is the one the requirement implies" rests on the requirement formulas (C02_busy_span)
+        "relevant": lambda o: owner_in(o, ("req:",)),
+        "spec": "C02",
         "sol_profiles": ["core", "all", "ind", "buffer"],
         "n_sol": {"quick": 300, "thorough": 5000},
         "z3_fraction": 0.3,
         "nontrivial": lambda s: True,
-        "rule": "SOL: build_solution of the real library vs the model on the same interpretation, for scripts of the "
+        "rule": "ENC + SEM on the requirement formulas (owner req:*, spec twin C02: the busy interval every reported assignment "
+                "is read from is the one the requirement implies); "
+                "SOL: build_solution of the real library vs the model on the same interpretation, for scripts of the "
                 "core / all / ind / buffer profiles x calendar settings {none, delta, delta+start_time}: 70 % synthetic "
                 "interpretations (every variable drawn from {-3..3,5,8,H}: unscheduled tasks, negative busy starts, ties, "
                 "duplicate buffer instants) fed through a model stub, 30 % real z3 models; every field of every task / "
@@ -163,7 +166,7 @@ PROPS = {
                         "the 'unscheduled => no assignment' theorem (finding F19)",
                         "the 'task lists r iff r lists the task' equivalence is decided by SOL + the two one-directional lemmas, "
                         "not yet by a single theorem"],
-        "n": {"quick": 20, "thorough": 100},
+        "n": {"quick": 120, "thorough": 2000},
     },
     "C16": {
         "theorems": ["C16_df_faithful", "C16_df_injective", "C16_excel_item_decode", "C16_excel_zero_length",
@@ -340,6 +343,38 @@ PROPS = {
         "assumptions": ["z3's unsat core is an unsatisfiable subset of the tracked assertions (trusted; re-checked by RUN)",
                         "the 32-bit tracking identifiers are distinct"],
         "n": {"quick": 10, "thorough": 50},
+    },
+    "C09": {
+        "theorems": ["C09_levels_nonconcurrent", "C09_levels_concurrent", "C09_exclusive", "C09_concurrent_tie_possible",
+                     "C09_initial", "C09_final", "C09_bounds", "C09_reported", "C09_spec_sound", "levels_closed_form",
+                     "sortNoDup_sound", "sortDup_sound", "satB_sound"],
+        "profiles": [("buffer", 0.7), ("all", 0.15), ("obj", 0.15)],
+        "relevant": lambda o: owner_in(o, ("buffer:",)),
+        "spec": "C09",
+        "sol_profiles": ["buffer"], "n_sol": {"quick": 60, "thorough": 1500}, "z3_fraction": 0.3,
+        "run_profiles": ["buffer"], "run_needs_driver": True,
+        "n_run": {"quick": 80, "thorough": 1500},
+        "run_check": __import__("harness.c09", fromlist=["x"]).run_c09,
+        "nontrivial": lambda s: sum(1 for d in s if d["op"] == "constraint" and d["c"][0] in ("loadBuffer", "unloadBuffer")) >= 2,
+        "rule": "ENC on the buffer assertions (owner buffer:*) for scripts of the 'buffer' profile (concurrent and "
+                "non-concurrent buffers, initial / final levels and bounds present or absent, 0..6 loading / unloading "
+                "tasks with quantities 1..5, optional accessors, plus task constraints); SEM: the closed form proved in Lean "
+                "(level after change time i = initial + sum of the quantities of all accesses at instants <= that time; "
+                "sorted covering change times; exclusivity for non-concurrent buffers; start / end / bounds) is negated "
+                "and conjoined with the real assertions (quantified pulses included); SOL: build_solution incl. "
+                "clean_buffer_levels vs the model on synthetic interpretations with duplicate instants and on z3 models; "
+                "RUN: up to 8 differently placed admitted schedules per script (z3 enumeration over the access instants) "
+                "+ one forced tie per script + the library's own solve(), each turned into a solution by the real "
+                "build_solution and compared with the theorem statement evaluated on the reported task times; "
+                "non-trivial = at least two accesses; distinct = distinct script text",
+        "assumptions": ["one change time per access (hlen): no task is declared twice as unloading, or twice as loading, the "
+                        "same buffer (the real registries are dicts keyed by task, the change-time list is not)",
+                        "an unscheduled optional task still accesses its buffer at its parking instant (finding F16): the RUN "
+                        "oracle skips scripts with optional accessors, the theorems state what the encoding does (all declared "
+                        "accesses count)",
+                        "z3 decides the quantified pulse formulas of concurrent buffers (unknown answers are counted, not "
+                        "treated as violations)"],
+        "n": {"quick": 200, "thorough": 4000},
     },
     "C14": {
         "theorems": ["C14_fresh_problem", "C14_run_after_problem", "C14_valid_order_free", "C05_complete_core"],
